@@ -150,6 +150,11 @@ let handle (w : string list) : string =
      | Files.EServed, Some f -> "served:" ^ index_of_id f.Files.f_id
      | e, _ -> effect e)
   | ["USER"; u] -> st := Files.step !st (Files.OAddUser (n_of_string u)); "USER ok"
+  | ["NEWACC"; u; tpls] ->
+    (* replyCreateUser: Users.Create, then Files.LinkAttachments("usrX", 0, attachments) *)
+    st := Files.step !st (Files.OAddUser (n_of_string u));
+    st := Files.step !st (Files.OUserAvatar (n_of_string u, resolve tpls));
+    "NEWACC 201"
   | ["TOPIC"; t; o; tpls] ->
     owners := (t, o) :: !owners;
     st := Files.step !st (Files.OAddTopic (n_of_string t));
